@@ -12,12 +12,17 @@ RULE = ('corpus; exhaustive scope: every 3-valued surface on the grids 1x1..2x3 
         'markers none/one/touching/border/dense (also negative labels), neighbourhoods None/int/cross/box/5x5/5x5x5/random '
         'boolean/even-sized/wider than the image, plateaus and ties. Every real call is made twice with the heap '
         'pre-dirtied by two different byte patterns (numpy small-block cache and glibc M_PERTURB), so an output cell '
-        'the kernel never writes differs from the specification. Non-trivial = at least one pixel is flooded from a '
+        'the kernel never writes differs from the specification. Size-threshold stream: > 65535 markers / labels / '
+        'queued pixels at one cost level, one region of > 65535 pixels, a row of 65537 pixels, judged with an exact '
+        'Python heap oracle of the specification flooding whose agreement with the Lean specification is checked on '
+        'every small random case of the run. Non-trivial = at least one pixel is flooded from a '
         'marker; distinct = distinct protocol line + layouts.')
 ASSUMPTIONS = ['surface values are not NaN (no strict weak order otherwise); floating surfaces are compared through their '
                'dense ranks (the flooding only compares costs: theorem C04_dense_rank_invariant / '
                'C04_order_isomorphism_invariant; -0.0 == 0.0)',
-               'markers are integer images of the shape of the surface (morph.py rejects anything else); labels fit int64',
+               'markers are integer/boolean images of the shape of the surface (morph.py rejects anything else); labels are the '
+               'values after the int64 cast of morph.py:314, modelled in Lean (`castMarker`: uint64 values >= 2^63 come back '
+               'negative); the harness sends the caller\'s values',
                'the neighbourhood is the set of non-zero entries of Bc after the cast to the surface dtype that '
                'get_structuring_elem performs',
                'array sizes < 2^31 (pos_to_flat/flat_to_pos use int)',
@@ -27,7 +32,7 @@ TRUSTED = ['numpy (array construction, layout views, unique for float ranks)']
 
 SURF_DTYPES = ['bool', 'uint8', 'uint16', 'uint32', 'uint64', 'int8', 'int16', 'int32', 'int64', 'float32', 'float64',
                'longdouble']
-MARK_DTYPES = ['int64', 'int32', 'uint8', 'int8', 'uint16', 'bool', 'int16', 'uint32']
+MARK_DTYPES = ['int64', 'int32', 'uint8', 'int8', 'uint16', 'bool', 'int16', 'uint32', 'uint64']
 
 _libc = None
 
@@ -68,9 +73,11 @@ def _ranks(vals, dtype):
     return [int(x) for x in vals]
 
 
-def _line(shape, costs, markers, bshape, bc):
+def _line(shape, costs, markers, bshape, bc, mcast=False):
+    # mcast: `markers` are the caller's values (any integer dtype); the driver applies its own model of the int64 cast
+    # of morph.py (`castMarker`) instead of numpy's
     return (f"c04 kind=ws shape={gen.enc_shape(shape)} data={gen.enc_arr(costs)} markers={gen.enc_arr(markers)} "
-            f"bshape={gen.enc_shape(bshape)} bc={gen.enc_arr(bc)}")
+            f"bshape={gen.enc_shape(bshape)} bc={gen.enc_arr(bc)}" + (' mcast=1' if mcast else ''))
 
 
 def _judge(drv, labels, lines, tag=''):
@@ -103,6 +110,94 @@ def _judge(drv, labels, lines, tag=''):
     return out
 
 
+def _oracle(shape, costs, markers, bshape, bcnz):
+    """exact O(N log N) oracle for the size-threshold stream (the Lean queues are lists: too slow beyond ~10^4 pixels):
+    the specification flooding of Model/C04.lean (`specInit` / `specVisit`) with a binary heap on (cost, insertion
+    index). Its agreement with the Lean specification is established on the small random cases of every run."""
+    import heapq
+    shape = tuple(int(x) for x in shape)
+    N = int(np.prod(shape)) if shape else 1
+    nd = len(shape)
+    offs = []
+    for j in np.ndindex(*bshape):
+        if bcnz[int(np.ravel_multi_index(j, bshape))] if bshape else bcnz[0]:
+            offs.append(tuple(a - b // 2 for a, b in zip(j, bshape)))
+    strides = [int(np.prod(shape[d + 1:])) for d in range(nd)]
+    lab = [int(x) for x in markers]
+    lines = [0] * N
+    queued = [False] * N
+    heap = []
+    idx = 0
+    for p in range(N):
+        if lab[p] != 0:
+            heap.append((costs[p], idx, p)); queued[p] = True; idx += 1
+    heapq.heapify(heap)
+    while heap:
+        _, _, p = heapq.heappop(heap)
+        queued[p] = False
+        pos, r = [], p
+        for d in range(nd):
+            pos.append(r // strides[d]); r %= strides[d]
+        lp = lab[p]
+        for o in offs:
+            q, ok = 0, True
+            for d in range(nd):
+                c = pos[d] + o[d]
+                if c < 0 or c >= shape[d]:
+                    ok = False
+                    break
+                q += c * strides[d]
+            if not ok:
+                continue
+            if lab[q] == 0:
+                lab[q] = lp
+                heapq.heappush(heap, (costs[q], idx, q)); queued[q] = True; idx += 1
+            elif queued[q] and lab[q] != lp:
+                lines[q] = 1
+    return lab, lines
+
+
+def _big_inputs(c):
+    """surface, markers (int64 values), element of a size-threshold case, generated from a few parameters"""
+    h, w = c['shape']
+    yy, xx = np.indices((h, w))
+    if c['big'] == 'flat-checker':          # > 65535 markers with distinct labels, all queued at one cost level
+        S = np.zeros((h, w), c['dtype'])
+        M = np.zeros((h, w), np.int64)
+        m = (yy + xx) % 2 == 0
+        M[m] = np.arange(1, int(m.sum()) + 1)
+    elif c['big'] == 'cone':                # one marker, one region of > 65535 pixels, > 65535 insertions
+        S = ((np.abs(yy - h // 2) + np.abs(xx - w // 3)) % 251).astype(c['dtype'])
+        M = np.zeros((h, w), np.int64)
+        M[h // 2, w // 3] = 70000
+    else:                                   # 'row': 1 x n, markers at both ends and in the middle, saw-tooth surface
+        S = ((xx * 7) % 13).astype(c['dtype'])
+        M = np.zeros((h, w), np.int64)
+        M[0, 0], M[0, w - 1], M[0, w // 2] = 1, 2, 3
+    Bc = np.ones((3, 3), bool) if c['elem'] == 'box' else np.array([[0, 1, 0], [1, 1, 1], [0, 1, 0]], bool)
+    return S, M.astype(c.get('mdtype', 'int64')), Bc
+
+
+def _eval_big(c):
+    S, M, Bc = _big_inputs(c)
+    costs = [int(x) for x in S.ravel().tolist()]
+    want, wlines = _oracle(c['shape'], costs, M.astype(np.int64).ravel().tolist(), [3, 3], [int(x) for x in Bc.ravel()])
+    n = S.size
+    W, L = _call(S, M, Bc, True, (8 * n, n), 0x55)
+    _perturb(0)
+    f = []
+    got = W.ravel().tolist()
+    if W.dtype != np.int64 or got != want:
+        bad = [i for i, (a, b) in enumerate(zip(got, want)) if a != b][:5]
+        f.append(dict(kind='property', key='labels:size-threshold', detail=dict(first_bad=bad, got=[got[i] for i in bad], spec=[want[i] for i in bad])))
+    elif L != wlines:
+        bad = [i for i, (a, b) in enumerate(zip(L, wlines)) if a != b][:5]
+        f.append(dict(kind='property', key='lines:size-threshold', detail=dict(first_bad=bad)))
+    return dict(findings=f, nontrivial=True, sig='big' + json.dumps(c, sort_keys=True),
+                tags=dict(dtype=c['dtype'], ndim=2, layout='C', mlayout='C', lines=1, elem=c['elem'], markers='some',
+                          unreached=0, size='threshold'))
+
+
 def _call(surf, markers, Bc, want_lines, sizes, byte):
     import mahotas as mh
     _perturb(byte)
@@ -119,6 +214,12 @@ def _call(surf, markers, Bc, want_lines, sizes, byte):
 
 
 def _eval_single(cases):
+    bigs = {id(c): _eval_big(c) for c in cases if 'big' in c}
+    small = iter(_eval_small([c for c in cases if 'big' not in c]))
+    return [bigs[id(c)] if 'big' in c else next(small) for c in cases]
+
+
+def _eval_small(cases):
     res = []
     lines_ = []
     arrs = []
@@ -131,7 +232,8 @@ def _eval_single(cases):
             Bc = None if c['bcarg'] == 'none' else int(c['bcarg'])
         mnorm = [int(x) for x in M.astype(np.int64).ravel().tolist()]
         arrs.append((S, M, Bc, mnorm))
-        lines_.append(_line(shape, _ranks(c['data'], c['dtype']), mnorm, c['bshape'], c['bcnz']))
+        mraw = [int(x) for x in M.ravel().tolist()]         # the values the caller's array holds (bool: 0/1)
+        lines_.append(_line(shape, _ranks(c['data'], c['dtype']), mraw, c['bshape'], c['bcnz'], mcast=True))
     drvs = core.drive(lines_)
     for c, drv, ln, (S, M, Bc, mnorm) in zip(cases, drvs, lines_, arrs):
         shape = c['shape']
@@ -160,6 +262,10 @@ def _eval_single(cases):
             if x['key'] not in seen:
                 seen.add(x['key']); keep.append(x)
         spec = core.ints(drv['spec'])
+        # the Python oracle of the size-threshold stream must agree with the Lean specification on the small cases
+        o = _oracle(shape, _ranks(c['data'], c['dtype']), mnorm, c['bshape'], c['bcnz'])
+        if len(c['bshape']) == len(shape) and (o[0] != spec or o[1] != core.ints(drv['slines'])):
+            raise core.Infra('C04: the Python oracle of the size-threshold stream disagrees with the Lean spec on ' + str(c)[:400])
         nontriv = any(a != b for a, b in zip(spec, mnorm))
         nm = sum(1 for x in mnorm if x)
         res.append(dict(findings=keep, nontrivial=nontriv, sig=ln + c.get('layout', 'C') + c.get('mlayout', 'C'),
@@ -254,6 +360,11 @@ def _rand_surface(rng, shape, dtype):
         vals = [float(np.dtype(dtype).type(v * sc)) for v in vals]
         if rng.random() < 0.2:
             vals = [(-0.0 if v == 0 and rng.random() < .5 else v) for v in vals]
+        if rng.random() < 0.15:
+            # +-inf (no NaN) and subnormals: still a strict weak order; equal costs stay equal after the dense-rank reduction
+            tiny = 1e-45 if dtype == 'float32' else 5e-324
+            ext = [float('inf'), float('-inf'), tiny, -tiny, 0.0]
+            vals = [(float(np.dtype(dtype).type(rng.choice(ext))) if rng.random() < 0.3 else v) for v in vals]
     return vals
 
 
@@ -262,7 +373,7 @@ def _rand_markers(rng, shape, mdtype):
     lo, hi = gen.dt_range(mdtype)
     m = [0] * n
     style = rng.random()
-    labs = [1, 2, 3, min(hi, 7), hi] + ([-1, lo] if lo < 0 else [])
+    labs = [1, 2, 3, min(hi, 7), hi] + ([-1, lo] if lo < 0 else []) + ([2 ** 63, 2 ** 63 + 5] if hi > 2 ** 63 else [])
     if style < 0.08:
         pass                                    # no marker at all
     elif style < 0.3:
@@ -381,11 +492,21 @@ def cases(rng, tier):
             blocks.append(dict(block='exh', shape=shp, elems=['cross', 'box'], surfs=list(range(3 ** n))))
     nrand = dict(quick=1500, thorough=30000, search=8000)[tier]
     rands = [_mk_case(rng) for _ in range(nrand)]
+    # size-threshold stream: > 65535 markers / labels / queued pixels at one level, one region of > 65535 pixels,
+    # rows longer than 2^16 (a label, index or queue counter narrowed to 16 bits passes every small case)
+    big = [dict(big='flat-checker', shape=[363, 363], dtype='uint8', elem='cross', mdtype='int64'),
+           dict(big='cone', shape=[257, 256], dtype=rng.choice(['uint8', 'int32', 'float64']), elem=rng.choice(['cross', 'box']), mdtype='int64'),
+           dict(big='row', shape=[1, 65537], dtype=rng.choice(['uint16', 'float32']), elem='cross', mdtype='uint8'),
+           dict(big='flat-checker', shape=[257, 256], dtype='float32', elem='box', mdtype='int32')]
+    if tier == 'quick':
+        head += [big[0]] + rng.sample(big[1:], 1)
+    elif tier == 'thorough':
+        head += big
     return _interleave(head, blocks, rands)
 
 
 def shrink(case):
-    if 'block' in case:
+    if 'block' in case or 'big' in case:
         return
     shape = case['shape']
     A = np.array(case['data'], dtype=object).reshape(shape)
